@@ -143,12 +143,38 @@ func c9EngGenShared(r *h.Rng) (string, string) {
 	case k < 3:
 		op := h.Pick(r, []string{"|=", "!=", "|~", "!~"})
 		v := genStr(r)
+		if r.Chance(50) {
+			v = h.Pick(r, []string{"{", "\"", "a", ":", "5", "e", "b", "level", "}"}) // substrings of the generated documents
+		}
 		if op == "|~" || op == "!~" {
 			v = genRegex(r)
+			if r.Chance(40) {
+				v = h.Pick(r, []string{"[0-9]+", "\"[a-z]+\"", "level", "^\\{", "a.b", "(?i)HELLO", "e"})
+			}
 		}
 		return op + " " + q(v), "line" + op
 	case k < 5:
-		return "| " + genLabelCond(r, 1), "label"
+		if r.Chance(40) {
+			return "| " + genLabelCond(r, 1), "label"
+		}
+		// conditions on the labels the generated `| json` / `| regexp` stages set, with the values the documents hold
+		cond := func() string {
+			name := h.Pick(r, []string{"x", "lvl", "a", "app", "level", "n1", "job"})
+			if r.Chance(35) {
+				return name + " " + h.Pick(r, []string{"==", "!=", ">", ">=", "<", "<="}) + " " + h.Pick(r, []string{"5", "5.5", "0", "100", "223"})
+			}
+			op := h.Pick(r, []string{"=", "!=", "!=", "=~", "!~"})
+			v := h.Pick(r, []string{"b", "5", "5.5", "abc", "Hello", "info", "error", "", "null", "true"})
+			if op == "=~" || op == "!~" {
+				v = h.Pick(r, []string{"a.*", "[0-9]+", "^$", "b|5", "(?i)hello", ".+"})
+			}
+			return name + " " + op + " " + q(v)
+		}
+		c := cond()
+		if r.Chance(30) {
+			c += " " + h.Pick(r, []string{"and", "or"}) + " " + cond()
+		}
+		return "| " + c, "label"
 	case k < 8:
 		n := r.Range(1, 3)
 		var ps []string
@@ -175,7 +201,7 @@ func c9EngGen(r *h.Rng) *c9EngCase {
 	c := &c9EngCase{Sel: c9EngGenSelector(r)}
 	nPre := h.Pick(r, []int{0, 0, 1, 1, 1, 2, 2, 3})
 	for i := 0; i < nPre; i++ {
-		if r.Chance(65) {
+		if r.Chance(80) {
 			c.Stages = append(c.Stages, c07xGenChanger(r)) // json / regexp / drop
 		} else {
 			c.Stages = append(c.Stages, c07xGenFilter(r))
